@@ -46,3 +46,82 @@ Proof.
   rewrite (wrath_decrypt_large_translated h1 b Hh1).
   destruct (decrypt_large_server_header h1 b) as [[h2 hd]|e|]; [reflexivity|destruct e|reflexivity].
 Qed.
+
+(* ================================================================================================
+   The remaining Wrath entry points: ClientEncrypterHalf::encrypt_client_header and its Write wrapper,
+   ServerEncrypterHalf::write_encrypted_server_header (which writes exactly the slice the typed helper
+   returns: 4 or 5 bytes), ServerDecrypterHalf::decrypt_client_header and its Read wrapper. *)
+From WS Require Import proofs.steps.HelpersCommon.
+From WS Require model.Vanilla.
+
+Definition ce_view (r : rc4) (d : list N) : option (rc4 * list N) := apply_view r d.
+Definition nv {A} (r : nres A) : option A := match r with Ok a => Some a | _ => None end.
+Definition wwview {H S} (proj : H -> S) (r : nres (H * wres)) : option (S * (unit + io_kind) * (list N * wscript)) :=
+  match r with
+  | Ok (h, (got, w', Ok _)) => Some (proj h, inl tt, (got, w'))
+  | Ok (h, (got, w', Err kd)) => Some (proj h, inr kd, (got, w'))
+  | _ => None
+  end.
+
+Lemma io_write_all_nil' : forall buf w, io_write_all buf ([], w) = let '(got, w', r) := write_all buf w in ((got, w'), r).
+Proof. intros. unfold io_write_all. cbn [fst snd]. destruct (write_all buf w) as [[got w'] r]. reflexivity. Qed.
+
+Lemma wrath_encrypt_client_header_translated : forall h size opcode,
+  tr_wrath_encrypt_client_header apply_view (ce_rc4 h) size opcode
+  = match encrypt_client_header h size opcode with Ok (h', out) => Some (ce_rc4 h', out) | _ => None end.
+Proof.
+  intros [r] size opcode. unfold tr_wrath_encrypt_client_header, encrypt_client_header, ce_encrypt, client_header_plain, be16, le32, apply_view.
+  cbn [ce_rc4].
+  change (N.to_nat 0) with 0%nat. change (N.to_nat 1) with 1%nat. change (N.to_nat 2) with 2%nat. change (N.to_nat 3) with 3%nat.
+  cbn [N_to_le rev app nth_error].
+  destruct (inner_apply r _) as [[r' o]|e|]; [reflexivity|destruct e|reflexivity].
+Qed.
+
+Lemma wrath_write_client_translated : forall h w size opcode,
+  tr_wrath_write_encrypted_client_header apply_view (ce_rc4 h) ([], w) size opcode
+  = wwview ce_rc4 (w_write_encrypted_client_header h w size opcode).
+Proof.
+  intros. unfold tr_wrath_write_encrypted_client_header, w_write_encrypted_client_header, write_after.
+  rewrite wrath_encrypt_client_header_translated.
+  destruct (encrypt_client_header h size opcode) as [[h' buf]|e|]; [|destruct e|reflexivity].
+  rewrite io_write_all_nil'. destruct (write_all buf w) as [[got w'] [u|kd|]]; reflexivity.
+Qed.
+
+Lemma wrath_write_server_translated : forall h w size opcode, length (se_buf h) = 5%nat ->
+  tr_wrath_write_encrypted_server_header apply_view (se_rc4 h) (se_buf h) ([], w) size opcode
+  = wwview (fun h => (se_rc4 h, se_buf h)) (w_write_encrypted_server_header h w size opcode).
+Proof.
+  intros h w size opcode Hb. unfold tr_wrath_write_encrypted_server_header, w_write_encrypted_server_header, write_after.
+  rewrite (wrath_encrypt_server_header_translated h size opcode Hb).
+  destruct (encrypt_server_header h size opcode) as [[h' buf]|e|]; [|destruct e|reflexivity]. cbn [enc_view].
+  rewrite io_write_all_nil'. destruct (write_all buf w) as [[got w'] [u|kd|]]; reflexivity.
+Qed.
+
+Lemma wrath_decrypt_client_header_translated : forall h data, length data = 6%nat ->
+  tr_wrath_decrypt_client_header apply_view (sd_rc4 h) data
+  = match decrypt_client_header h data with Ok (h', hd) => Some (sd_rc4 h', hd) | _ => None end.
+Proof.
+  intros [r] data Hl. unfold tr_wrath_decrypt_client_header, decrypt_client_header, sd_decrypt, apply_view. cbn [sd_rc4].
+  destruct (inner_apply r data) as [[r' o]|e|] eqn:E; [|destruct e|reflexivity].
+  pose proof (apply_keystream_length _ _ _ _ E) as L. rewrite Hl in L.
+  destruct o as [|b0 [|b1 [|b2 [|b3 [|b4 [|b5 [|]]]]]]]; try discriminate L.
+  rewrite client_header_from_array_translated. cbn [sd_rc4].
+  destruct (WS.model.Vanilla.client_header_from_array _); reflexivity.
+Qed.
+
+Definition srview (r : nres (server_dec * res (hdr * rscript) io_kind)) (s : rscript) : option (rc4 * (hdr + io_kind) * rscript) :=
+  match r with
+  | Ok (h, Ok (a, rest)) => Some (sd_rc4 h, inl a, rest)
+  | Ok (h, Err kd) => Some (sd_rc4 h, inr kd, s)
+  | _ => None
+  end.
+
+Lemma wrath_read_client_translated : forall h s,
+  tr_wrath_read_and_decrypt_client_header apply_view (sd_rc4 h) s = srview (w_read_and_decrypt_client_header h s) s.
+Proof.
+  intros h s. unfold tr_wrath_read_and_decrypt_client_header, w_read_and_decrypt_client_header, read_then.
+  rewrite repeat_length. change (N.to_nat wrath_client_header_length) with 6%nat.
+  destruct (read_exact 6 s) as [[buf rest]|kd|] eqn:E; [|reflexivity|reflexivity].
+  rewrite wrath_decrypt_client_header_translated by (eapply read_exact_ok_length; exact E).
+  destruct (decrypt_client_header h buf) as [[h' a]|e|]; [reflexivity|destruct e|reflexivity].
+Qed.
